@@ -62,9 +62,27 @@ def onlyNullEnum (kvs : Kvs) : Bool :=
   | some (.arr vs) => vs.all (fun v => match v with | .null => true | _ => false)
   | _ => false
 
-/-- one pass through the `match` of `convert_schema_object` -/
-def step (kvs : Kvs) : Step :=
-  let ty := tyOf kvs
+/-- the first arm: a two-element type list with `null` -/
+def armNullable (kvs : Kvs) (ts : List JT) : Option Step :=
+  if ts.length == 2 && ts.contains .null then
+    if onlyNullEnum kvs then some (.done .nullOnly) else
+    match ts.find? (fun t => t != .null) with
+    | some t => some (.done (.optionOf t))
+    | none => some (.again (setType kvs (some (.str "null"))))
+  else none
+
+/-- the arm a lone subschema keyword is handed to -/
+def soleArm (kvs : Kvs) : Arm :=
+  match soleSub kvs with
+  | some "allOf" => .allOf
+  | some "anyOf" => .anyOf
+  | some "oneOf" => .oneOf
+  | some "not" => .not
+  | _ => .subschemasMerged
+
+/-- the arms for a single stated type (`single t`: the type is exactly `t`; `untyped`: no `type` at all; `one`: some single
+    type) up to and including the subschema arms, in the order of the source: (guard, arm) -/
+def typedArms (kvs : Kvs) (single : JT → Bool) (untyped one : Bool) : List (Bool × Arm) :=
   let fmt := has kvs "format"
   let en := has kvs "enum"
   let cn := has kvs "const"
@@ -74,64 +92,46 @@ def step (kvs : Kvs) : Step :=
   let arr := arrP kvs
   let obj := objP kvs
   let rf := has kvs "$ref"
-  match ty with
-  | .bad => .done .malformed
-  | _ =>
-  -- 1. `[T, null]`
-  let arm1 : Option Step :=
-    match ty with
-    | .multi ts =>
-      if ts.length == 2 && ts.contains .null then
-        if onlyNullEnum kvs then some (.done .nullOnly) else
-        match ts.find? (fun t => t != .null) with
-        | some t => some (.done (.optionOf t))
-        | none => some (.again (setType kvs (some (.str "null"))))
-      else none
-    | _ => none
-  match arm1 with
-  | some s => s
-  | none =>
-  let single (t : JT) : Bool := match ty with | .single t' => t' == t | _ => false
-  let untyped : Bool := match ty with | .none => true | _ => false
-  -- 2. strings
-  if single .string && !en && !cn && !sub && !rf then .done .string
-  else if untyped && !en && !cn && !sub && !num && str && !arr && !obj && !rf then .done .stringUntyped
-  else if single .string && en && !cn && !sub && !rf then .done .enumString
-  -- integers, numbers
-  else if single .integer && !en && !cn && !sub && !rf then .done .integer
-  else if single .number && !en && !cn && !sub && !rf then .done .number
-  -- boolean (enumerated values ignored)
-  else if single .boolean && !fmt && !cn && !sub && !rf then .done .boolean
-  -- objects
-  else if single .object && !fmt && !en && !cn && !sub && !rf then .done .object
-  else if untyped && !fmt && !en && !cn && !sub && !num && !str && !arr && obj && !rf then .done .objectUntyped
-  -- arrays
-  else if single .array && !fmt && !en && !cn && !sub && arr && !rf then .done .array
-  else if untyped && !fmt && !en && !cn && !sub && !num && !str && arr && !obj && !rf then .done .arrayUntyped
-  else if single .array && !fmt && !en && !cn && !sub && !arr && !rf then .done .arrayOfAny
-  -- the permissive schema
-  else if untyped && !fmt && !en && !cn && !sub && !num && !str && !arr && !obj && !rf then .done .permissive
-  -- null
-  else if single .null && !en && !cn && !sub && !rf then .done .null
-  -- references
-  else if untyped && !fmt && !en && !cn && !sub && !num && !str && !arr && !obj && rf then .done .reference
-  else if !fmt && !en && !cn && !sub && !num && !str && !arr && !obj && rf then .done .referenceTyped
-  else if rf then .done .referenceMerged
-  -- enumerations of a non-string type / of no stated type
-  else if (match ty with | .single _ => true | _ => false) && en then .done .typedEnum
-  else if untyped && !fmt && en && !cn && !sub && !num && !str && !arr && !obj then .done .unknownEnum
-  -- subschemas alone
-  else if !fmt && !en && !cn && sub && !num && !str && !arr && !obj then
-    (match soleSub kvs with
-     | some "allOf" => .done .allOf
-     | some "anyOf" => .done .anyOf
-     | some "oneOf" => .done .oneOf
-     | some "not" => .done .not
-     | _ => .done .subschemasMerged)
-  -- subschemas next to something else
-  else if sub then .done .subschemasWithRest
-  -- `const` is dropped
-  else if cn then .again (kvs.filter (fun kv => kv.1 != "const"))
+  [ -- strings
+    (single .string && !en && !cn && !sub && !rf, .string),
+    (untyped && !en && !cn && !sub && !num && str && !arr && !obj && !rf, .stringUntyped),
+    (single .string && en && !cn && !sub && !rf, .enumString),
+    -- integers, numbers
+    (single .integer && !en && !cn && !sub && !rf, .integer),
+    (single .number && !en && !cn && !sub && !rf, .number),
+    -- boolean (enumerated values ignored)
+    (single .boolean && !fmt && !cn && !sub && !rf, .boolean),
+    -- objects
+    (single .object && !fmt && !en && !cn && !sub && !rf, .object),
+    (untyped && !fmt && !en && !cn && !sub && !num && !str && !arr && obj && !rf, .objectUntyped),
+    -- arrays
+    (single .array && !fmt && !en && !cn && !sub && arr && !rf, .array),
+    (untyped && !fmt && !en && !cn && !sub && !num && !str && arr && !obj && !rf, .arrayUntyped),
+    (single .array && !fmt && !en && !cn && !sub && !arr && !rf, .arrayOfAny),
+    -- the permissive schema
+    (untyped && !fmt && !en && !cn && !sub && !num && !str && !arr && !obj && !rf, .permissive),
+    -- null
+    (single .null && !en && !cn && !sub && !rf, .null),
+    -- references
+    (untyped && !fmt && !en && !cn && !sub && !num && !str && !arr && !obj && rf, .reference),
+    (!fmt && !en && !cn && !sub && !num && !str && !arr && !obj && rf, .referenceTyped),
+    (rf, .referenceMerged),
+    -- enumerations of a non-string type / of no stated type
+    (one && en, .typedEnum),
+    (untyped && !fmt && en && !cn && !sub && !num && !str && !arr && !obj, .unknownEnum),
+    -- subschemas alone
+    (!fmt && !en && !cn && sub && !num && !str && !arr && !obj, soleArm kvs),
+    -- subschemas next to something else
+    (sub, .subschemasWithRest) ]
+
+/-- the first arm whose guard holds; `none`: fall through to the rewriting arms -/
+def armsTyped (kvs : Kvs) (single : JT → Bool) (untyped one : Bool) : Option Step :=
+  ((typedArms kvs single untyped one).find? (fun ga => ga.1)).map (fun ga => .done ga.2)
+
+/-- the last arms: `const` is dropped; a type list naming every type is dropped; a one-element list is that type; any other
+    list becomes an untagged union of the types; everything else is the `todo!()` -/
+def armsRewrite (kvs : Kvs) (ty : Ty) : Step :=
+  if has kvs "const" then .again (kvs.filter (fun kv => kv.1 != "const"))
   else
     match ty with
     | .multi ts =>
@@ -139,8 +139,31 @@ def step (kvs : Kvs) : Step :=
       else match ts with
         | [t] => .again (setType kvs (some (.str (jtName t))))
         | _ =>
-          if !en && !cn && !sub && !rf then .done (.multiType ts.eraseDups) else .done .todo
+          if !has kvs "enum" && !has kvs "const" && !subP kvs && !has kvs "$ref" then .done (.multiType ts.eraseDups) else .done .todo
     | _ => .done .todo
+
+def isSingle : Ty → JT → Bool
+  | .single t', t => t' == t
+  | _, _ => false
+def isUntyped : Ty → Bool
+  | .none => true
+  | _ => false
+def isOne : Ty → Bool
+  | .single _ => true
+  | _ => false
+
+/-- one pass through the `match` of `convert_schema_object` -/
+def step (kvs : Kvs) : Step :=
+  let ty := tyOf kvs
+  match ty with
+  | .bad => .done .malformed
+  | _ =>
+  match (match ty with | .multi ts => armNullable kvs ts | _ => none) with
+  | some s => s
+  | none =>
+  match armsTyped kvs (isSingle ty) (isUntyped ty) (isOne ty) with
+  | some s => s
+  | none => armsRewrite kvs ty
 
 /-- the arm a schema ends in, rewriting arms followed -/
 def resolve : Nat → Json → Arm
